@@ -27,3 +27,11 @@ Theorem bisect_py_eq_rs : forall fuel name sha s e,
   py_bisect_top fuel name sha s e = rs_bisect_top fuel name sha s e.
 Proof. exact bisect_top_py_eq_rs. Qed.
 Print Assumptions bisect_py_eq_rs.
+
+(* block counting for rename detection: the blocks both twins hash are a
+   partition of the blob into pieces of 1..64 bytes (model shared by both twins;
+   each twin is compared with it on every run) *)
+Theorem count_blocks_is_partition : forall data,
+  concat (count_blocks data) = data /\ Forall (fun b => 1 <= zlen b <= 64) (count_blocks data).
+Proof. intros data. split; [apply count_blocks_partition|apply count_blocks_bounded]. Qed.
+Print Assumptions count_blocks_is_partition.
